@@ -366,7 +366,10 @@ class C13(Check):
             "{-2,1,3,1/2}^vars x {True,False}^boolean vars; 7 variable-name alphabets (case, prefixes, "
             "digits, underscores) under non-symmetric shapes; negative int / float / numpy constants "
             "in every operand role (-0.0 included); sums, products, bitwise nodes, calls and subscripts "
-            "with 65 / 100 / 150 (thorough 33..200) operands each of which changes the value; compile() additionally with every "
+            "with 65 / 100 / 150 (thorough 33..200) operands each of which changes the value; "
+            "non-integer constant exponents over 5 bases (negative points give complex values); "
+            "summands -1*b*c of three and more factors at every position; and / or / if whose "
+            "deciding operand precedes one that raises; compile() additionally with every "
             "ordered selection of listed variables (thorough, <=3 free variables) given as names "
             "and Variables, and a pickle round trip under protocols 2..5. Non-trivial = the "
             "reference yields a value in some environment; distinct = distinct trees.")
@@ -405,6 +408,58 @@ class C13(Check):
                       ("Call", V("f"), T(a, b, c)), ("Subscript", V("arr"), T(b, a)),
                       ("FloorDiv", ("Sum", T(a, C(10))), ("Sum", T(b, c)))):
                 yield ("t", t)
+
+    def gen_fracpow(self):
+        """non-integer constant exponents (the box has negative values: complex results)"""
+        x, y = V("x"), V("y")
+        bases = (x, ("Sum", T(x, C(1))), ("Product", T(x, y)), ("Product", T(C(-1), x)),
+                 ("Power", x, C(2)))
+        for c in (C(0.5), C(1.5), C(-0.5), C(0.25), C(2.5)):
+            for b in bases:
+                yield ("t", ("Power", b, c))
+                yield ("t", ("Sum", T(("Power", b, c), y)))
+                yield ("t", ("Product", T(C(2), ("Power", b, c))))
+                yield ("t", ("Power", ("Power", b, c), C(2)))
+                yield ("t", ("Quotient", y, ("Power", b, c)))
+
+    def gen_differences(self):
+        """a - b*c is Sum(a, Product(-1, b, c)): summands that are products of three and more
+        factors beginning with -1, at every position"""
+        x, y, z = V("x"), V("y"), V("z")
+        negs = (("Product", T(C(-1), y, z)), ("Product", T(C(-1), C(2), z)),
+                ("Product", T(C(-1), y, z, x)), ("Product", T(C(-1), ("Sum", T(y, z)), z)),
+                ("Product", T(C(-1), y)), ("Product", T(C(-2), y, z)),
+                ("Product", T(C(-1), ("Power", y, C(2)), z)))
+        for n in negs:
+            yield ("t", ("Sum", T(x, n)))
+            yield ("t", ("Sum", T(n, x)))
+            yield ("t", ("Sum", T(x, n, y)))
+            yield ("t", ("Sum", T(n, n)))
+            yield ("t", ("Product", T(C(3), ("Sum", T(x, n)))))
+            yield ("t", ("Power", ("Sum", T(x, n)), C(2)))
+            yield ("t", ("Call", V("f"), T(("Sum", T(x, n)))))
+        for n1, n2 in itertools.product(negs[:4], repeat=2):
+            yield ("t", ("Sum", T(x, n1, n2)))
+
+    def gen_shortcircuit(self):
+        """the deciding operand of and / or / if comes before one that raises: the evaluator never
+        touches the second"""
+        x = V("x")
+        false_, true_ = ("Comparison", C(0), ("str", "!="), C(0)), ("Comparison", C(0), ("str", "=="), C(0))
+        bad = (("Comparison", ("Quotient", x, C(0)), ("str", ">"), C(0)),
+               ("Comparison", ("Remainder", x, C(0)), ("str", ">"), C(0)),
+               ("Comparison", ("FloorDiv", x, C(0)), ("str", "<"), C(1)),
+               ("Call", V("boom"), T()))
+        for b in bad:
+            yield ("t", ("LogicalAnd", T(false_, b)))
+            yield ("t", ("LogicalOr", T(true_, b)))
+            yield ("t", ("LogicalAnd", T(true_, false_, b)))
+            yield ("t", ("LogicalOr", T(false_, true_, b)))
+            yield ("t", ("If", true_, x, b))
+            yield ("t", ("If", false_, b, x))
+            yield ("t", ("If", ("LogicalAnd", T(false_, b)), C(1), C(2)))
+            yield ("t", ("Sum", T(x, ("If", ("LogicalOr", T(true_, b)), C(1), C(2)))))
+            yield ("t", ("LogicalNot", ("LogicalAnd", T(false_, b))))
 
     def gen_wide(self, tier):
         """n-ary nodes with many operands, every one of which changes the value if it is lost."""
@@ -455,6 +510,9 @@ class C13(Check):
             ("variable-names", self.gen_names),
             ("negative-constants", self.gen_negconsts),
             ("wide", lambda: self.gen_wide(tier)),
+            ("fractional-powers", self.gen_fracpow),
+            ("differences", self.gen_differences),
+            ("short-circuit", self.gen_shortcircuit),
             ("hash-twins", lambda: (("t", s) for s in gen.twin_trees()
                                     if well_typed(s) and no_cse(s))),
             ("bushy", lambda: (("t", s) for s in self.gen_bushy(tier) if well_typed(s))),
